@@ -42,6 +42,27 @@ type c10Pos struct {
 	// perpetual: custody after ONE settlement of the interest and funding accrued up to the probe block (what a third party's
 	// request may take out of a position it is not allowed to close)
 	Settled math.Int
+	// perpetual: the health a SECOND evaluation in the same block finds (a position named twice in one request list is settled and
+	// judged twice; the second pass starts from what the first one left)
+	Health2 math.LegacyDec
+}
+
+func c10OthersSettled(c c10Pos, settledIn map[uint64]int, settledSelf map[uint64]bool) int {
+	if c.Module != "perp" {
+		return 0
+	}
+	n := settledIn[c.Pool]
+	if settledSelf[c.Id] {
+		n--
+	}
+	return n
+}
+
+func decRaw2(d, dflt math.LegacyDec) string {
+	if d.IsNil() {
+		return decRaw(dflt)
+	}
+	return decRaw(d)
 }
 
 func (w *World) lpPositions(ctx sdk.Context) map[uint64]lptypes.Position {
@@ -131,6 +152,26 @@ func (w *World) c10Predict(dt time.Duration) []c10Pos {
 			}
 			cp.Health = h
 			cp.Settled = m.Custody
+			// the same prefix once more, on what the first pass left (the first pass stored the position and the pool)
+			cp.Health2 = h
+			m.MtpHealth = h
+			_ = app.PerpetualKeeper.SetMTP(ctx, &m)
+			app.PerpetualKeeper.SetPool(ctx, pool)
+			// a second request in the same block fetches the pools afresh: the amm pool as the first settlement left it
+			pool, _ = app.PerpetualKeeper.GetPool(ctx, m.AmmPoolId)
+			ammPool, _ = app.AmmKeeper.GetPool(ctx, m.AmmPoolId)
+			if tpl, err := app.PerpetualKeeper.CalcMTPTakeProfitLiability(ctx, m); err == nil {
+				m.TakeProfitLiabilities = tpl
+			}
+			_ = m.UpdateMTPTakeProfitBorrowFactor()
+			app.PerpetualKeeper.UpdateMTPBorrowInterestUnpaidLiability(ctx, &m)
+			if _, err := app.PerpetualKeeper.SettleMTPBorrowInterestUnpaidLiability(ctx, &m, &pool, ammPool); err == nil {
+				if err := app.PerpetualKeeper.SettleFunding(ctx, &m, &pool, ammPool); err == nil {
+					if h2, err := app.PerpetualKeeper.GetMTPHealth(ctx, m, ammPool, "uusdc"); err == nil {
+						cp.Health2 = h2
+					}
+				}
+			}
 		}()
 		if pr, err := app.PerpetualKeeper.GetAssetPrice(ctx, m.TradingAsset); err == nil {
 			cp.Price = pr
@@ -590,6 +631,19 @@ func runC10(t *testing.T, seed int64, n int, out *Out) {
 					nTouched++
 				}
 			}
+			// perpetual positions whose custody moved in this block (settlements of interest and funding): each such settlement takes
+			// tokens out of the amm pool, which every later health evaluation in the block (a later entry of the same list, a repeated
+			// request) is measured against
+			settledIn := map[uint64]int{}
+			settledSelf := map[uint64]bool{}
+			for _, c := range pred {
+				if c.Module == "perp" {
+					if m, ok := perpNow[c.Id]; ok && !m.Custody.Equal(c.Size) {
+						settledIn[c.Pool]++
+						settledSelf[c.Id] = true
+					}
+				}
+			}
 			for _, c := range pred {
 				after := J{"exists": false, "size": "0", "collateral": "0", "principal": "0"}
 				if c.Module == "lp" {
@@ -622,8 +676,8 @@ func runC10(t *testing.T, seed int64, n int, out *Out) {
 				}
 				stats["case/"+c.Module]++
 				out.Line(J{"t": "c10.case", "id": wi, "round": round, "module": c.Module, "pos": c.Id, "owner": c.Owner, "requested": rq, "sweep": c.Module == "lp",
-					"txCode": res.Txs[0].Code, "health": decRaw(c.Health), "safety": decRaw(sf), "price": decRaw(c.Price), "stopLoss": decRaw(c.StopLoss), "takeProfit": decRaw(c.TakeProf),
-					"long": c.Long, "liabZero": c.LiabZero, "predErr": c.PredErr, "othersChanged": others, "repeated": repeated, "settledSize": c10IntStr(c.Settled),
+					"txCode": res.Txs[0].Code, "health": decRaw(c.Health), "health2": decRaw2(c.Health2, c.Health), "safety": decRaw(sf), "price": decRaw(c.Price), "stopLoss": decRaw(c.StopLoss), "takeProfit": decRaw(c.TakeProf),
+					"long": c.Long, "liabZero": c.LiabZero, "predErr": c.PredErr, "othersChanged": others, "othersSettled": c10OthersSettled(c, settledIn, settledSelf), "repeated": repeated, "settledSize": c10IntStr(c.Settled),
 					"before": J{"size": c.Size.String(), "collateral": c.Coll.String(), "principal": c.Princ.String()}, "after": after, "ownerDelta": delta})
 			}
 			// an owner-scoped close from someone else must fail
